@@ -454,8 +454,9 @@ def m_drain(c):
     cl = (el - sl) if (el is not None and sl is not None) else None
     # the removed range is start..end; remaining len = len - (end - start)
     newl = (l - cl) if (l is not None and cl is not None) else None
-    set_len(c, c.st, loc, usize(max(ln.lo - cnt.hi, 0), max(ln.hi - cnt.lo, 0)), newl)
+    # the number of drained items is stated in terms of the old length: recorded before the length is overwritten
     c.ret(Iter("slice", cnt, arr.elem, extra="val"), extras=((("rem",), cl),))
+    set_len(c, c.st, loc, usize(max(ln.lo - cnt.hi, 0), max(ln.hi - cnt.lo, 0)), newl)
 
 
 @model("std::vec::Vec::splice")
@@ -488,8 +489,10 @@ def m_split_off(c):
     c.oblige("PRECOND", "split_off: at <= len", prove_le(c.st, nl, l, n, ln))
     tail = usize(max(ln.lo - n.hi, 0), max(ln.hi - n.lo, 0))
     tl = (l - nl) if (l is not None and nl is not None) else None
-    set_len(c, c.st, loc, usize(min(n.lo, ln.hi), min(n.hi, ln.hi)), nl if prove_le(c.st, nl, l, n, ln) else None)
+    inb = prove_le(c.st, nl, l, n, ln)
+    # the tail's length is stated in terms of the *old* length, so it is recorded before the container's length is overwritten
     c.ret(Arr(tail, arr.elem, None, arr.container), extras=((("len",), tl),))
+    set_len(c, c.st, loc, usize(min(n.lo, ln.hi), min(n.hi, ln.hi)), nl if inb else None)
 
 
 def through_equalities(st, form):
@@ -1037,7 +1040,20 @@ def m_next(c):
         pass
 
 
+@model("std::iter::Iterator::enumerate")
+def m_enumerate(c):
+    it, loc = c.arg(0)
+    if not isinstance(it, Iter) or it.ikind != "slice":
+        c.ret(Iter("opaque"))
+        return
+    # same iterator, items become (index, item); the index is only known to be a valid count
+    c.ret(Iter(it.ikind, it.remaining, it.elem, it.start, it.end, ("enum", it.extra), it.cells, it.pos), src_loc=loc)
+
+
 def _item(c, st, it, elem, tag):
+    if isinstance(it.extra, tuple) and it.extra and it.extra[0] == "enum":
+        inner = Iter(it.ikind, it.remaining, it.elem, it.start, it.end, it.extra[1], it.cells, it.pos)
+        return Struct("tuple", [Int(0, ISIZE_MAX, 64, False), _item(c, st, inner, elem, tag)])
     if it.extra == "val":
         return elem
     if isinstance(it.extra, tuple) and it.extra[0] == "refmut" and it.extra[1] is not None:
